@@ -210,8 +210,58 @@ def hoisted_count(d):
     if e.get("kind") != "CXXMemberCallExpr":
         return None
     ci = callee_info(e)
-    if ci is None or ci["args"]:
+    if ci is None:
         return None
+    fn0 = _enclosing_function(d)
+    for a_ in ci["args"]:
+        # an argument must keep its value for as long as the alias is used: a literal, a const local / parameter, or the variable of
+        # a loop that encloses the declaration and is only read in that loop
+        ac = canon(a_)
+        if ac[0] == "lit":
+            continue
+        if ac[0] == "elem" and len(ac) == 3:
+            ac = ("var", ac[2], "")       # a range-for variable
+        if ac[0] != "var" or fn0 is None:
+            return None
+        ad = d.get("_u").by_id.get(ac[1]) if d.get("_u") is not None else None
+        if ad is None:
+            return None
+        at = ((ad.get("type") or {}).get("qualType") or "")
+        if at.startswith("const ") and "&" not in at and "*" not in at:
+            continue
+        lp = d.get("_p")
+        encl = None
+        while lp is not None and lp is not fn0:
+            if lp.get("kind") in ("ForStmt", "CXXForRangeStmt") and any(y is ad for y in walk(lp)):
+                encl = lp
+                break
+            lp = lp.get("_p")
+        if encl is None:
+            return None
+        for x in walk(encl):
+            if x.get("kind") == "DeclRefExpr" and (x.get("referencedDecl") or {}).get("id") == ac[1]:
+                p_ = x.get("_p") or {}
+                while p_.get("kind") == "ParenExpr":
+                    p_ = p_.get("_p") or {}
+                if p_.get("kind") == "ImplicitCastExpr" and p_.get("castKind") == "NoOp" and qt(p_).startswith("const "):
+                    continue          # bound to a const reference parameter
+                if p_.get("kind") in ("CXXOperatorCallExpr", "CXXMemberCallExpr", "CallExpr", "CXXConstructExpr"):
+                    ci2 = callee_info(p_)
+                    ptypes = ((ci2.get("decl") or {}).get("type") or {}).get("qualType", "") if ci2 else ""
+                    if "&" not in ptypes.replace("const ", "").split("(")[-1] or ci2["name"] in ("operator[]", "count", "find", "at"):
+                        continue      # passed by value / to a lookup
+                if not (p_.get("kind") == "ImplicitCastExpr" and p_.get("castKind") == "LValueToRValue"):
+                    inc_ok = False
+                    # the loop's own increment is the one permitted write
+                    q_ = x
+                    while q_ is not None and q_ is not encl:
+                        par = q_.get("_p")
+                        if par is encl and encl.get("kind") == "ForStmt":
+                            chs = [c_ for c_ in inner(encl)]
+                            inc_ok = len(chs) >= 4 and q_ is chs[3]
+                        q_ = par
+                    if not inc_ok:
+                        return None
     cd = ci.get("decl") or {}
     ft = qt(cd) if cd else ""
     if ci["name"] not in ("size",) and not (ft and "const" in ft[ft.rfind(")"):]):
@@ -858,9 +908,14 @@ def forwarding_target(ctx, f, _depth=0):
     if f.body is None or _depth > 2:
         return f, {}
     stmts = [c for c in inner(f.body) if isinstance(c, dict) and c.get("kind")]
-    if len(stmts) != 1 or stmts[0].get("kind") != "ReturnStmt" or not children(stmts[0]):
+    if len(stmts) != 1:
         return f, {}
-    e = strip(children(stmts[0])[0])
+    if stmts[0].get("kind") == "ReturnStmt" and children(stmts[0]):
+        e = strip(children(stmts[0])[0])
+    elif stmts[0].get("kind") in ("CallExpr", "CXXMemberCallExpr", "ExprWithCleanups"):
+        e = strip(stmts[0])          # `helper<T>(args);` as the only statement of a void function
+    else:
+        return f, {}
     while e.get("kind") in ("CXXConstructExpr", "ExprWithCleanups", "MaterializeTemporaryExpr", "CXXBindTemporaryExpr") and len(children(e)) == 1:
         e = strip(children(e)[0])
     if e.get("kind") not in ("CallExpr", "CXXMemberCallExpr"):
@@ -875,7 +930,10 @@ def forwarding_target(ctx, f, _depth=0):
         ca = canon(a)
         if ca[0] == "lit" and i < len(h.params):
             env[h.params[i].get("id")] = ca
-    if not env:
+    # without a literal to specialise on, the helper is only "the code of f" when it is an instantiation of a template made for f's
+    # type arguments (runSubLegalizer<TetrisLegalizer>): a shared non-template helper does different things for different callers
+    is_inst = (h.decl.get("_p") or {}).get("kind") == "FunctionTemplateDecl" and "|" not in h.key
+    if not env and not is_inst:
         return f, {}
     h2, env2 = forwarding_target(ctx, h, _depth + 1)
     if h2 is not h:
@@ -930,6 +988,18 @@ def inline_getters(ctx, c, _depth=0, with_params=False):
     if not isinstance(c, tuple) or _depth > 6:
         return c
     c = tuple(inline_getters(ctx, x, _depth + 1, with_params) if isinstance(x, tuple) else x for x in c)
+    if c and c[0] == "field" and len(c) == 3 and isinstance(c[2], tuple) and c[2] and c[2][0] in ("initlist", "construct") and isinstance(c[1], str):
+        # a member of an aggregate that was just built from a list: `blended(w).x` with `return {blend(xLB, xUB, w), blend(yLB, yUB, w)};`
+        cls, _, fld = c[1].rpartition("::")
+        rec = ctx.prog.records.get(cls)
+        items = [t for t in (c[2][1:] if c[2][0] == "initlist" else c[2][2:]) if isinstance(t, tuple)]
+        while len(items) == 1 and items[0][0] in ("initlist", "construct"):
+            items = [t for t in (items[0][1:] if items[0][0] == "initlist" else items[0][2:]) if isinstance(t, tuple)]
+        if rec is not None and fld in rec["fields"]:
+            names = list(rec["fields"].keys())
+            decl_order = [d.get("name") for d in inner(rec["decl"]) if isinstance(d, dict) and d.get("kind") == "FieldDecl"]
+            if fld in decl_order and len(items) == len(decl_order):
+                return items[decl_order.index(fld)]
     if c and c[0] == "call" and len(c) >= 3 and isinstance(c[1], str) and "::" in c[1] and (len(c) == 3 or with_params):
         fs = [f for f in ctx.prog.funcs_by_q.get(c[1], []) if len(f.params) == len(c) - 3 and f.body is not None]
         if len(fs) == 1:
@@ -1345,6 +1415,155 @@ def extremal_key_mismatches(f):
     return out
 
 
+
+# ---- arguments passed in the slot of a neighbouring parameter -----------------------------------------------
+
+def _leaf_name(c):
+    """Identifier an argument is known by: the data member of another object (a parameter struct) it reads."""
+    if not isinstance(c, tuple) or not c:
+        return None
+    # only data members carry a name that means something across functions (`params.sideMargin`); locals and loop indices
+    # (`i`, `offs1`) are named by position and would match by accident
+    if c[0] == "field" and c[2] != ("this",):
+        return str(c[1]).split("::")[-1]
+    return None
+
+
+def _norm_name(n):
+    return n.strip("_").lower() if n else None
+
+
+def swapped_arguments(ctx, funcs):
+    """Calls of library functions where an argument that is *named like* another parameter of the callee sits in the wrong slot:
+    argument i is called exactly like parameter j (j != i, same type), is not called like parameter i, and the argument in slot j is
+    not called like parameter j either. `f(circuit, margin, binSize)` for `f(circuit, binSize, margin)`. Returns
+    [(call node, func, text)]."""
+    out = []
+    for f in funcs:
+        if f.body is None:
+            continue
+        roots = [f.body] + list(getattr(f, "ctor_inits", []) or [])
+        for root in roots:
+            for x in walk(root):
+                if x.get("kind") not in CALL_KINDS:
+                    continue
+                ci, hs = ctx.eff.resolve_callee(x)
+                if not ci or len(hs) != 1:
+                    continue
+                h = hs[0]
+                args = [a for a in ci["args"] if a.get("kind") != "CXXDefaultArgExpr"]
+                if len(h.params) < 2 or len(args) < 2:
+                    continue
+                pn = [_norm_name(p.get("name")) for p in h.params]
+                pt = [qt(p).replace("const ", "").replace("&", "").strip() for p in h.params]
+                an = [_norm_name(_leaf_name(canon(a))) for a in args]
+                for i in range(min(len(args), len(pn))):
+                    if not an[i] or an[i] == pn[i]:
+                        continue
+                    for j in range(min(len(args), len(pn))):
+                        if j == i or pn[j] != an[i] or pt[i] != pt[j]:
+                            continue
+                        if an[j] == pn[j]:
+                            continue          # the slot of that parameter holds its namesake: two arguments of one name, not a swap
+                        out.append((x, f, "argument %d (%s) of %s is named like parameter %d (%s); slot %d receives %s" % (
+                            i + 1, _leaf_name(canon(args[i])), h.short, j + 1, h.params[j].get("name"), j + 1, pretty(canon(args[j]))[:40])))
+    return out
+
+
+
+def check_restart_per_iteration(ctx, rep, rid, funcs):
+    """A running position that an inner loop advances from its own value (`pos += width`) *and uses* (as a call argument, a stored
+    value) lays out one candidate; when the enclosing loop enumerates candidates it has to start again for each of them: declared, or
+    assigned a value that does not depend on itself, inside the enclosing loop before the inner one. Hoisted out of the enclosing loop
+    it makes every candidate after the first start where the previous one ended. Returns the number of such variables examined."""
+    LOOPS = ("ForStmt", "CXXForRangeStmt", "WhileStmt", "DoStmt")
+    n = 0
+    for f in funcs:
+        if f.body is None:
+            continue
+        for outer in [x for x in walk(f.body) if x.get("kind") in LOOPS]:
+            obody = [c for c in inner(outer) if isinstance(c, dict) and c.get("kind")][-1]
+            inners = [x for x in inner(obody) if isinstance(x, dict) and x.get("kind") in LOOPS] if obody.get("kind") == "CompoundStmt" else []
+            for il in inners:
+                upd = {}
+                for x in walk(il):
+                    k = x.get("kind")
+                    if k == "CompoundAssignOperator" and x.get("opcode") in ("+=", "-="):
+                        l = canon(children(x)[0])
+                        if l[0] == "var":
+                            upd[l[1]] = (l, x)
+                    elif k == "BinaryOperator" and x.get("opcode") == "=":
+                        l, r = canon(children(x)[0]), canon(children(x)[1])
+                        if l[0] == "var" and r[0] == "bin" and r[1] in ("+", "-") and any(t[:2] == l[:2] for t in subterms(r)):
+                            upd[l[1]] = (l, x)
+                inside_outer = {id(y) for y in walk(obody)}
+                inside_inner = {id(y) for y in walk(il)}
+                for vid, (v, un) in upd.items():
+                    d = f.unit.by_id.get(vid)
+                    if d is None or d.get("kind") != "VarDecl" or id(d) in inside_inner:
+                        continue
+                    upd_nodes = {id(y) for y in walk(un)}
+                    used = [r_ for r_ in ctx.eff.var_refs(f, vid) if id(r_) in inside_inner and id(r_) not in upd_nodes]
+                    # used as a value handed on (argument / stored), not merely compared
+                    handed = False
+                    for r_ in used:
+                        p_ = r_.get("_p")
+                        while p_ is not None and p_.get("kind") in ("ImplicitCastExpr", "ParenExpr"):
+                            p_ = p_.get("_p")
+                        if p_ is not None and p_.get("kind") in ("CXXMemberCallExpr", "CallExpr", "CXXConstructExpr", "CXXOperatorCallExpr"):
+                            handed = True
+                    if not handed:
+                        continue
+                    n += 1
+                    ok = id(d) in inside_outer
+                    if not ok:
+                        for y in walk(obody):
+                            if id(y) in inside_inner:
+                                continue
+                            if y.get("range", {}).get("begin", {}).get("offset", 0) > il.get("range", {}).get("begin", {}).get("offset", 0):
+                                continue
+                            if y.get("kind") == "BinaryOperator" and y.get("opcode") == "=":
+                                l, r = canon(children(y)[0]), canon(children(y)[1])
+                                if l[:2] == v[:2] and not any(t[:2] == v[:2] for t in subterms(r)):
+                                    ok = True
+                    what = "%s: running position %s advanced and used by the inner loop" % (f.short, v[2])
+                    if ok:
+                        rep.holds(rid, d, f, what, "restarted for every iteration of the enclosing loop")
+                    else:
+                        rep.violation(rid, d, f, what, "it is initialised outside the enclosing loop and never restarted inside it: every candidate after the "
+                                      "first is laid out starting where the previous one ended (beyond the region)", key="%s|running position not restarted" % f.short)
+    return n
+
+
+
+# ---- integer modules stay in integers -------------------------------------------------------------------------
+
+def check_no_float(ctx, rep, rid, class_pred, why):
+    """NF. The classes selected by class_pred compute positions, supplies and costs in (64-bit) integers; a value that passes through
+    float is exact only below 2^24. No implicit integer <-> floating conversion may occur in their member functions, except in
+    accessors whose declared result is floating point. Returns the number of functions examined."""
+    n = 0
+    bad = []
+    for f in ctx.prog.all_funcs(with_lambdas=False):
+        if f.body is None or not f.cls or not class_pred(f.cls):
+            continue
+        rt = (f.type or "").split("(")[0].strip()
+        if rt in ("float", "double"):
+            continue
+        n += 1
+        for x in walk(f.body):
+            if x.get("kind") == "ImplicitCastExpr" and x.get("castKind") in ("IntegralToFloating", "FloatingToIntegral"):
+                src = strip(children(x)[0])
+                if src.get("kind") in ("IntegerLiteral", "FloatingLiteral"):
+                    continue
+                bad.append((x, f, x.get("castKind"), pretty(canon(src))[:60]))
+    for x, f, ck, what in bad:
+        rep.violation(rid, x, f, "%s: %s of %s" % (f.short, "integer value converted to floating point" if ck == "IntegralToFloating" else
+                                                   "floating-point value truncated to an integer", what), why,
+                      key="%s|floating point in an integer computation" % f.short)
+    return n, len(bad)
+
+
 # ---- running minimum / maximum sentinels ----------------------------------------------------------------
 
 def _running_extrema(f):
@@ -1362,6 +1581,27 @@ def _running_extrema(f):
                     if ent[0] != r[1]:
                         ent[0] = "mixed"
                     ent[1].append(e)
+    # if-form: `if (e > v) { v = e; ... }`
+    for x in walk(f.body):
+        if x.get("kind") != "IfStmt":
+            continue
+        cs = children(x)
+        cond = canon(cs[0])
+        if cond[0] != "bin" or cond[1] not in ("<", "<=", ">", ">=") or len(cs) < 2:
+            continue
+        for z in walk(cs[1]):
+            if z.get("kind") == "BinaryOperator" and z.get("opcode") == "=":
+                l, r = canon(children(z)[0]), canon(children(z)[1])
+                if l[0] != "var" or {cond[2], cond[3]} != {l, r} or l == r:
+                    continue
+                bigger = cond[2] if cond[1] in (">", ">=") else cond[3]      # the operand that is the larger one when the test holds
+                kind_ = "max" if bigger == r else "min"
+                d = f.unit.by_id.get(l[1])
+                if d is not None and d.get("kind") == "VarDecl":
+                    ent = out.setdefault(l[1], [kind_, [], d, l])
+                    if ent[0] != kind_:
+                        ent[0] = "mixed"
+                    ent[1].append(r)
     return out
 
 
@@ -1381,6 +1621,14 @@ def check_sentinels(ctx, rep, rid, funcs):
             n += 1
             init = children(d)
             ic = strip(init[-1], casts=True) if init else None
+            for _hop in range(3):                                    # `float best = worst;` - the sentinel is what `worst` was initialised with
+                if ic is not None and ic.get("kind") == "DeclRefExpr":
+                    d2 = f.unit.by_id.get((ic.get("referencedDecl") or {}).get("id"))
+                    i2 = children(d2) if d2 is not None and d2.get("kind") == "VarDecl" else None
+                    if i2:
+                        ic = strip(i2[-1], casts=True)
+                        continue
+                break
             what = "%s: running %s %s" % (f.short, "maximum" if kind_ == "max" else "minimum", v[2])
             bad = False
             if ic is not None and ic.get("kind") == "CallExpr":
@@ -1557,3 +1805,444 @@ def check_loop_accumulators(ctx, rep, rid, funcs):
                         rep.violation(rid, il, f, what, "it is declared before the enclosing loop and never reset inside it: the value accumulated for the "
                                       "previous iteration is carried over", key="%s|accumulator %s not reset per iteration" % (f.short, v[2]))
     return n
+
+
+# ---- EV: element read of a container that is still empty ------------------------------------
+
+EV_ELEMENT = ("front", "back", "at")
+EV_PASSIVE = ("size", "empty", "reserve", "capacity", "begin", "end", "cbegin", "cend", "rbegin", "rend", "clear", "shrink_to_fit", "max_size")
+
+
+def check_empty_reads(ctx, rep, rid, funcs):
+    """EV. A vector that starts empty (a default-constructed local; in a constructor, a member the initialiser list gives no arguments)
+    has no element until something fills it. An element read (`front()`, `back()`, `at()`, `[]`) at a point no filling statement can
+    reach is either undefined behaviour or - under an `!empty()` test - dead code whose result is silently replaced by the default:
+    typically a read moved above the loop that fills the container. Every use that is neither an element read nor a size query
+    counts as "may fill". Returns (containers that start empty, of which read by element)."""
+    n = 0
+    nobj = 0
+    for f in funcs:
+        if f.body is None:
+            continue
+        objs = {}                                            # key -> description
+        for y in walk(f.body):
+            if y.get("kind") == "VarDecl" and "vector<" in qt(y) and "&" not in qt(y) and "*" not in qt(y) and not qt(y).startswith("const "):
+                ch = children(y)
+                init = ch[-1] if ch else None
+                while init is not None and init.get("kind") in ("ExprWithCleanups", "CXXBindTemporaryExpr", "MaterializeTemporaryExpr") and children(init):
+                    init = children(init)[0]
+                if init is None or (init.get("kind") == "CXXConstructExpr" and not children(init)):
+                    objs[("var", y.get("id"))] = y.get("name")
+        if f.kind == "CXXConstructorDecl":
+            given = set()
+            for ci_ in f.ctor_inits:
+                an = ci_.get("anyInit") or {}
+                args = [c for c in children(ci_)]
+                a0 = args[0] if args else None
+                if a0 is not None and not (a0.get("kind") == "CXXConstructExpr" and not children(a0)):
+                    given.add(an.get("name"))
+            cls = ctx.prog.classes.get(f.cls) if hasattr(ctx.prog, "classes") else None
+            for y in walk(f.body):
+                if y.get("kind") == "MemberExpr" and "vector<" in qt(y) and children(y) and children(y)[0].get("kind") == "CXXThisExpr" and y.get("name") not in given:
+                    objs[("field", y.get("name"))] = y.get("name")
+        if not objs:
+            continue
+        nobj += len(objs)
+        g = cfg_of(f)
+        uses = {k: {"elem": [], "fill": []} for k in objs}
+        for y in walk(f.body):
+            key = None
+            if y.get("kind") == "DeclRefExpr" and ("var", (y.get("referencedDecl") or {}).get("id")) in objs:
+                key = ("var", (y.get("referencedDecl") or {}).get("id"))
+            elif y.get("kind") == "MemberExpr" and children(y) and children(y)[0].get("kind") == "CXXThisExpr" and ("field", y.get("name")) in objs:
+                key = ("field", y.get("name"))
+            if key is None:
+                continue
+            p = y.get("_p") or {}
+            while p.get("kind") in ("ParenExpr", "ImplicitCastExpr") and not (p.get("kind") == "ImplicitCastExpr" and p.get("castKind") not in ("NoOp", "LValueToRValue", None)):
+                p = p.get("_p") or {}
+            if p.get("kind") == "MemberExpr" and p.get("name") in EV_ELEMENT:
+                uses[key]["elem"].append(y)
+            elif p.get("kind") == "MemberExpr" and p.get("name") in EV_PASSIVE:
+                pass
+            elif p.get("kind") == "CXXOperatorCallExpr" and callee_info(p) and callee_info(p)["name"] == "operator[]" and \
+                    callee_info(p)["obj"] is not None and strip(callee_info(p)["obj"], casts=True) is y:
+                uses[key]["elem"].append(y)
+            else:
+                uses[key]["fill"].append(y)
+        for key, u in uses.items():
+            if not u["elem"]:
+                continue
+            n += 1
+            fills = [g.node_for(y) for y in u["fill"]]
+            fills = [x for x in fills if x is not None]
+            reach = g.reachable_from(fills) if fills else set()
+            bad = []
+            for y in u["elem"]:
+                r = g.node_for(y)
+                if r is None:
+                    continue
+                if r.idx not in reach and not any(x is r for x in fills):
+                    bad.append(y)
+            what = "%s: element reads of %s" % (f.short, objs[key])
+            if bad:
+                rep.violation(rid, bad[0], f, what, "%d read(s) at a point where the container is still empty on every path (nothing that fills it can have run): "
+                              "undefined behaviour, or dead code under an emptiness test" % len(bad), key="%s|%s read before it is filled" % (f.short, objs[key]))
+            else:
+                rep.holds(rid, u["elem"][0], f, what, "%d read(s), each reachable only after a statement that may fill the container" % len(u["elem"]))
+    return nobj, n
+
+
+# ---- BU: do / undo pairs of a backtracking search -------------------------------------------
+
+def check_balanced_undo(ctx, rep, rid, funcs):
+    """BU. A backtracking enumeration (a function that calls itself) changes shared state before it descends and takes the change back
+    afterwards: push_back / pop_back on one container, `x += e` / `x -= e`, `++x` / `--x`. The two halves must run under the same
+    conditions: an undo that is unconditional while its do sits under a test (or the reverse) leaves the state drifting a little
+    further from the truth on every branch where the test fails. Returns the number of do/undo pairs examined."""
+    n = 0
+    for f in funcs:
+        if f.body is None:
+            continue
+        rec = False
+        for x in walk(f.body):
+            if x.get("kind") in ("CXXMemberCallExpr", "CallExpr"):
+                ci = callee_info(x)
+                if ci and ci.get("qname") == f.qname:
+                    rec = True
+        if not rec:
+            continue
+        ops = {}
+        for x in walk(f.body):
+            k = x.get("kind")
+            if k == "CXXMemberCallExpr":
+                ci = callee_info(x)
+                if ci and ci["name"] in ("push_back", "emplace_back", "pop_back") and ci["obj"] is not None:
+                    key = ("seq", canon(ci["obj"]))
+                    ops.setdefault(key, {"do": [], "undo": []})["undo" if ci["name"] == "pop_back" else "do"].append(x)
+            elif k == "CompoundAssignOperator" and x.get("opcode") in ("+=", "-="):
+                l, r = children(x)
+                key = ("acc", canon(l), expand_locals(ctx, f, canon(r)))
+                ops.setdefault(key, {"do": [], "undo": []})["do" if x.get("opcode") == "+=" else "undo"].append(x)
+            elif k == "UnaryOperator" and x.get("opcode") in ("++", "--"):
+                key = ("cnt", canon(children(x)[0]))
+                ops.setdefault(key, {"do": [], "undo": []})["do" if x.get("opcode") == "++" else "undo"].append(x)
+        for key, du in ops.items():
+            if not du["do"] or not du["undo"]:
+                continue
+            if key[0] == "cnt" and key[1][0] == "var":
+                d = f.unit.by_id.get(key[1][1])
+                p = (d or {}).get("_p") or {}
+                if p.get("kind") == "DeclStmt" and (p.get("_p") or {}).get("kind") == "ForStmt":
+                    continue                                  # a loop counter stepped both ways is not search state
+            n += 1
+            gs = lambda x: frozenset((gc, bool(val)) for gc, val, _a, asr in (ctx.guards(f, x) or []) if not asr)
+            gd = {gs(x) for x in du["do"]}
+            gu = {gs(x) for x in du["undo"]}
+            what = "%s: %s is changed before the recursive descent and changed back after it" % (f.short, pretty(key[1])[:40])
+            if gd == gu:
+                rep.holds(rid, du["do"][0], f, what, "both halves run under the same conditions")
+            else:
+                only_d = [pretty(g_)[:40] for s_ in gd for (g_, v_) in s_ if not any((g_, v_) in t_ for t_ in gu)]
+                only_u = [pretty(g_)[:40] for s_ in gu for (g_, v_) in s_ if not any((g_, v_) in t_ for t_ in gd)]
+                rep.violation(rid, du["undo"][0], f, what, "but not under the same conditions (only the change: %s; only the change back: %s): on the "
+                              "branches where they differ the state keeps an amount it never received, or loses one it did" % (only_d or "-", only_u or "-"),
+                              key="%s|%s undone under other conditions than done" % (f.short, pretty(key[1])[:30]))
+    return n
+
+
+# ---- CA: a compacted copy of the circuit's cells and its write-back ------------------------------
+
+def _cell_loops(ctx, f):
+    """for-loops of f over 0 .. <circuit>.nbCells(): (loop info, canonical circuit object)."""
+    out = []
+    for x in walk(f.body):
+        if x.get("kind") != "ForStmt":
+            continue
+        l = for_loop_info(x)
+        if not l or l.get("step") != 1 or l["lo"] != ("lit", "0"):
+            continue
+        hi = l["hi"]
+        if hi[0] == "call" and hi[1] == CQ + "Circuit::nbCells" and len(hi) > 2:
+            out.append((l, hi[2]))
+    return out
+
+
+def _norm(c, ren):
+    if isinstance(c, tuple):
+        if c in ren:
+            return ren[c]
+        return tuple(_norm(t, ren) for t in c)
+    return c
+
+
+def check_compaction(ctx, rep, rid, builder, exporter):
+    """CA. `builder` copies the per-cell data of the circuit into vectors that hold one entry per *kept* cell (the others are skipped by
+    `continue`) and hands them to a constructor; `exporter` walks the circuit's cells again, advancing an index into the compact
+    numbering for every cell it does not skip. (1) every vector is pushed under the same conditions on the cell; (2) every per-cell
+    vector handed to the constructor is one of those compact vectors, not a member of the circuit in the circuit's numbering;
+    (3) the exporter advances its compact index under exactly the builder's conditions. Otherwise entry j of one vector speaks about
+    another cell than entry j of the next, or the write-back shifts every later cell."""
+    bl = _cell_loops(ctx, builder)
+    if len(bl) != 1:
+        rep.unknown(rid, builder.decl, builder, "cell loop of %s" % builder.short, "%d loops over the circuit's cells (shape changed)" % len(bl))
+        return
+    l, circ = bl[0]
+    ren = {l["var"]: ("cell",), circ: ("circuit",)}
+
+    def cell_guards(f, x, lv, ren_):
+        out = set()
+        for gc, val, _a, asr in (ctx.guards(f, x) or []):
+            if asr:
+                continue
+            if lv in set(t for t in subterms(gc) if isinstance(t, tuple)):
+                out.add((_norm(expand_locals(ctx, f, gc), ren_), bool(val)))
+        return frozenset(out)
+    pushes = {}
+    for x in walk(l["body"]):
+        if x.get("kind") == "CXXMemberCallExpr":
+            ci = callee_info(x)
+            if ci and ci["name"] in ("push_back", "emplace_back") and ci["obj"] is not None:
+                oc = canon(ci["obj"])
+                if oc[0] == "var":
+                    pushes.setdefault(oc[1], []).append((x, cell_guards(builder, x, l["var"], ren), oc[2]))
+    if not pushes:
+        rep.unknown(rid, l["stmt"], builder, "compact vectors of %s" % builder.short, "no push inside the cell loop (shape changed)")
+        return
+    gsets = {g_ for lst in pushes.values() for _x, g_, _n in lst}
+    what = "%s: %d vectors hold one entry per kept cell" % (builder.short, len(pushes))
+    if len(gsets) == 1 and all(len(lst) == 1 for lst in pushes.values()):
+        rep.holds(rid, l["stmt"], builder, what, "each is pushed once per cell under the same conditions (%s)" % ", ".join("%s is %s" % (pretty(g_)[:40], v_) for g_, v_ in sorted(list(gsets)[0], key=str)))
+    else:
+        rep.violation(rid, l["stmt"], builder, what, "but they are not all pushed under the same conditions on the cell: entry j of one vector belongs to another "
+                      "cell than entry j of the next", key="%s|compact vectors pushed under different conditions" % builder.short)
+    bg = sorted(gsets, key=lambda s_: -len(s_))[0]
+    # (2) constructor arguments
+    for x in walk(builder.body):
+        if x.get("kind") in ("CXXConstructExpr", "CXXTemporaryObjectExpr") and len(children(x)) >= 3:
+            for a_ in children(x):
+                ac = canon(a_)
+                t = qt(a_)
+                if "vector<" not in t or "Row>" in t.replace(" ", ""):
+                    continue
+                if ac[0] == "var" and ac[1] in pushes:
+                    continue
+                if ac[0] == "field" and ac[1].startswith(CQ + "Circuit::") and ac[2] == circ:
+                    rep.violation(rid, a_, builder, "%s hands %s to the constructor" % (builder.short, pretty(ac)[:40]), "this vector is numbered like the circuit's cells "
+                                  "(fixed ones included); the others are numbered by kept cell: entry j describes another cell",
+                                  key="%s|circuit-numbered vector among the compact ones" % builder.short)
+    # (3) exporter
+    el = _cell_loops(ctx, exporter)
+    if len(el) != 1:
+        rep.unknown(rid, exporter.decl, exporter, "cell loop of %s" % exporter.short, "%d loops over the circuit's cells (shape changed)" % len(el))
+        return
+    l2, circ2 = el[0]
+    ren2 = {l2["var"]: ("cell",), circ2: ("circuit",)}
+    incs = []
+    for x in walk(l2["body"]):
+        if x.get("kind") == "UnaryOperator" and x.get("opcode") == "++":
+            c = canon(children(x)[0])
+            if c[0] == "var" and c != l2["var"]:
+                incs.append((x, c))
+        elif x.get("kind") == "CompoundAssignOperator" and x.get("opcode") == "+=":
+            c = canon(children(x)[0])
+            if c[0] == "var" and c != l2["var"]:
+                incs.append((x, c))
+    if len(incs) != 1:
+        rep.unknown(rid, l2["stmt"], exporter, "compact index of %s" % exporter.short, "%d advancing statements in the cell loop (shape changed)" % len(incs))
+        return
+    eg = cell_guards(exporter, incs[0][0], l2["var"], ren2)
+    what = "%s advances its index %s into the compact numbering" % (exporter.short, incs[0][1][2])
+    if eg == bg:
+        rep.holds(rid, incs[0][0], exporter, what, "for exactly the cells %s keeps" % builder.short)
+    else:
+        rep.violation(rid, incs[0][0], exporter, what, "under other conditions on the cell than %s keeps cells (builder: %s; export: %s): every cell after the first "
+                      "difference is written back from the wrong entry, or the export runs past the end and throws half-way" %
+                      (builder.short, sorted((pretty(g_)[:40], v_) for g_, v_ in bg), sorted((pretty(g_)[:40], v_) for g_, v_ in eg)),
+                      key="%s|compact index advanced for other cells than the builder keeps" % exporter.short)
+
+
+def check_sibling_cell_formula(ctx, rep, rid, f1, f2, what_):
+    """FA. Two functions compute the same per-cell quantity from the circuit (once when the object is built, once when it is refreshed):
+    in their loops over the circuit's cells they push the same values under the same conditions on the cell."""
+    forms = []
+    for f in (f1, f2):
+        ls = _cell_loops(ctx, f)
+        if not ls:
+            # the computation may sit in a helper that receives the circuit (`demands = computeCellDemands(circuit)`)
+            for y in walk(f.body):
+                if y.get("kind") in ("CallExpr", "CXXMemberCallExpr"):
+                    ci_, hs = ctx.eff.resolve_callee(y)
+                    for h in hs:
+                        if h.body is not None and h is not f and any("Circuit" in qt(p_) for p_ in h.params) and \
+                                any(z.get("kind") == "CXXMemberCallExpr" and callee_info(z)["name"] in ("push_back", "emplace_back")
+                                    for l_, _c in _cell_loops(ctx, h) for z in walk(l_["body"])):
+                            f, ls = h, _cell_loops(ctx, h)
+                            break
+                    if ls:
+                        break
+        if not ls:
+            rep.unknown(rid, f.decl, f, "cell loop of %s" % f.short, "no loop over the circuit's cells (shape changed)")
+            return
+        l, circ = ls[0]
+        ren = {l["var"]: ("cell",), circ: ("circuit",)}
+        out = set()
+        node = None
+        for x in walk(l["body"]):
+            if x.get("kind") == "CXXMemberCallExpr":
+                ci = callee_info(x)
+                if ci and ci["name"] in ("push_back", "emplace_back") and ci["args"]:
+                    gs = frozenset((_norm(expand_locals(ctx, f, gc), ren), bool(val)) for gc, val, _a, asr in (ctx.guards(f, x) or [])
+                                   if not asr and l["var"] in set(t for t in subterms(gc) if isinstance(t, tuple)))
+                    v = _norm(expand_locals(ctx, f, canon(ci["args"][0])), ren)
+                    out.add((gs, v))
+                    node = node or x
+        forms.append((f, out, node))
+    (fa, a, na), (fb, b, nb) = forms
+    what = "%s and %s compute %s" % (fa.short, fb.short, what_)
+    if a == b and a:
+        rep.holds(rid, na, fa, what, "with the same %d case(s): %s" % (len(a), "; ".join(sorted(pretty(v)[:40] for _g, v in a))))
+    elif not a or not b:
+        rep.unknown(rid, fa.decl, fa, what, "no per-cell push found in one of them (shape changed)")
+    else:
+        da = sorted(pretty(v)[:50] for g_, v in a - b)
+        db = sorted(pretty(v)[:50] for g_, v in b - a)
+        rep.violation(rid, nb or na, fb, what, "differently (%s only: %s; %s only: %s): the refresh compares its values with what the construction stored, and a cell "
+                      "on which the two formulas disagree is reported as changed (or a change is missed)" % (fa.short, da or "-", fb.short, db or "-"),
+                      key="%s|per-cell formula differs from %s" % (fb.short, fa.short))
+
+
+# ---- BK: two-pass bucket (CSR) construction -----------------------------------------------------
+
+def check_two_pass_buckets(ctx, rep, rid, fs):
+    """BK. An index from keys to items is built in two passes: the first counts the items of every key (`++limits[key + 1]`, then a
+    prefix sum), the second writes every item at `cur[key]++` with `cur` a copy of the limits. Both passes must enumerate the same
+    items under the same conditions and with the same key: an item the count skips (or counts once where the fill writes twice) makes
+    the fill run over into the range of the next key and overwrite its entries. The two passes may sit in different methods of the
+    class (fs: the functions to search)."""
+    if not isinstance(fs, (list, tuple)):
+        fs = [fs]
+
+    def loops_of(f, x):
+        out = []
+        p = x.get("_p")
+        while p is not None and p is not f.body:
+            if p.get("kind") == "ForStmt":
+                out.append(for_loop_info(p))
+            elif p.get("kind") in ("CXXForRangeStmt", "WhileStmt", "DoStmt"):
+                out.append(None)
+            p = p.get("_p")
+        return list(reversed(out))
+
+    def describe(f, x, key):
+        ls = loops_of(f, x)
+        if not ls or any(l is None for l in ls):
+            return None
+        ren = {l["var"]: ("loop", k) for k, l in enumerate(ls)}
+        rng = tuple((_norm(l["lo"], ren), _norm(l["hi"], ren), l.get("step")) for l in ls)
+        conds = {l["cond"] for l in ls if l.get("cond") is not None}
+        outer = ls[0]["stmt"]
+
+        def inside(ast):
+            q = ast
+            while q is not None:
+                if q is outer:
+                    return True
+                q = q.get("_p")
+            return False
+        gs = frozenset((_norm(expand_locals(ctx, f, gc), ren), bool(val)) for gc, val, ast, asr in (ctx.guards(f, x) or [])
+                       if not asr and gc not in conds and inside(ast))
+        return rng, gs, _norm(expand_locals(ctx, f, key), ren)
+    counts, fills = [], []
+    for f in fs:
+        if f.body is None:
+            continue
+        for x in walk(f.body):
+            if x.get("kind") == "UnaryOperator" and x.get("opcode") in ("++",):
+                c = canon(children(x)[0])
+                if c[0] != "index":
+                    continue
+                base, idx = c[1], c[2]
+                if base[0] == "field" and base[2] == ("this",):
+                    k = idx[2] if idx[0] == "bin" and idx[1] == "+" and idx[3] == ("lit", "1") else idx
+                    counts.append((f, x, base, k))
+                elif base[0] == "var":
+                    d = f.unit.by_id.get(base[1])
+                    init = canon(children(d)[-1]) if d is not None and d.get("kind") == "VarDecl" and children(d) else None
+                    while init is not None and init[0] == "construct" and len(init) == 3:
+                        init = init[2]
+                    if init is not None and init[0] == "field":
+                        fills.append((f, x, init, idx))
+    n = 0
+    for f, x, base, k in counts:
+        mates = [(g_, y, i2, k2) for g_, y, i2, k2 in fills if i2 == base]
+        if not mates:
+            continue
+        n += 1
+        dc = describe(f, x, k)
+        what = "%s: items counted into %s and items written through its copy" % (f.short, pretty(base)[:30])
+        bad = None
+        for g_, y, _i2, k2 in mates:
+            df = describe(g_, y, k2)
+            if dc is None or df is None:
+                bad = "?"
+                continue
+            if dc != df:
+                which = "loop ranges" if dc[0] != df[0] else ("conditions" if dc[1] != df[1] else "keys")
+                bad = (y, which, dc, df)
+        if bad == "?":
+            rep.unknown(rid, x, f, what, "loops around the two passes not recognised")
+        elif bad:
+            y, which, dc, df = bad
+            rep.violation(rid, x, f, what, "differ in their %s (count: %s | fill: %s): the fill writes more or fewer entries for a key than were reserved for it, "
+                          "running over into the next key's range" % (which, (sorted((pretty(g_)[:40], v_) for g_, v_ in dc[1]), pretty(dc[2])[:30]),
+                                                                     (sorted((pretty(g_)[:40], v_) for g_, v_ in df[1]), pretty(df[2])[:30])),
+                          key="%s|count pass and fill pass disagree" % f.short)
+        else:
+            rep.holds(rid, x, f, what, "are enumerated by the same loops, under the same conditions, with the same key %s" % pretty(dc[2])[:30])
+    return n
+
+
+# ---- crossed x / y arguments ---------------------------------------------------------------
+
+def crossed_axis_arguments(ctx, funcs):
+    """Two arguments of one call whose names differ only in a leading x / y (xPlacementUB_, yPlacementUB_) handed to two parameters
+    whose names differ only in that letter too (xplace, yplace), crosswise. Yields (call node, function, description)."""
+    def axis_name(c):
+        while isinstance(c, tuple) and c and c[0] in ("field", "var") and False:
+            pass
+        if not isinstance(c, tuple) or not c:
+            return None
+        if c[0] == "var":
+            nm = c[2]
+        elif c[0] == "field":
+            nm = str(c[1]).split("::")[-1]
+        else:
+            return None
+        if len(nm) > 1 and nm[0] in "xyXY" and not nm[1].isdigit():
+            return nm[0].lower(), nm[1:]
+        return None
+    for f in funcs:
+        if f.body is None:
+            continue
+        for x in walk(f.body):
+            if x.get("kind") not in ("CallExpr", "CXXMemberCallExpr", "CXXConstructExpr"):
+                continue
+            try:
+                ci, hs = ctx.eff.resolve_callee(x)
+            except Exception:
+                continue
+            if not ci or len(hs) != 1:
+                continue
+            ps = hs[0].params
+            args = ci["args"]
+            an = [axis_name(canon(a)) for a in args]
+            pn = []
+            for p_ in ps:
+                nm = p_.get("name") or ""
+                pn.append((nm[0].lower(), nm[1:]) if len(nm) > 1 and nm[0] in "xyXY" and not nm[1].isdigit() else None)
+            for i in range(min(len(an), len(pn))):
+                for j in range(i + 1, min(len(an), len(pn))):
+                    if an[i] and an[j] and pn[i] and pn[j] and an[i][1] == an[j][1] and pn[i][1] == pn[j][1] and \
+                            {an[i][0], an[j][0]} == {"x", "y"} and {pn[i][0], pn[j][0]} == {"x", "y"} and an[i][0] != pn[i][0]:
+                        yield x, f, "%s(%s -> %s, %s -> %s)" % (ci["name"], pretty(canon(args[i]))[:24], ps[i].get("name"), pretty(canon(args[j]))[:24], ps[j].get("name"))
